@@ -16,6 +16,16 @@ class Mismatch(Exception):
   pass
 
 
+def _quiet_mismatch(args, _old=threading.excepthook):
+  """a replay thread that is cut short by a Mismatch after its schedule ended is not an error to print"""
+  if isinstance(args.exc_value, Mismatch):
+    return
+  _old(args)
+
+
+threading.excepthook = _quiet_mismatch
+
+
 class Director:
   def __init__(self, visible, timeout=20.0):
     """visible(tid, target, op) -> bool"""
